@@ -54,6 +54,17 @@ Theorem C13_two_pass_is_backoff_score :
   forall (T : table K) c x, score2 K k0 kadd T (c ++ [x]) = score K k0 kadd T c x.
 Proof. exact two_pass_is_backoff_score. Qed.
 
+(* ... and every record of the executable model (the one the harness compares with the tool) carries exactly the
+   un-normalised sums of the specification. *)
+Theorem C13_model_rows_are_spec_sums :
+  forall (K : Type) (k0 k1 : K) (kadd kmul ksub : K -> K -> K) (kopp : K -> K),
+  ring_theory k0 k1 kadd kmul ksub kopp (@eq K) ->
+  forall (cs : list (comp K)) g P B, In (g, (P, B)) (merged K k0 kadd kmul cs) -> g <> [] ->
+    In g (union_ngrams K cs) /\
+    P = wsum K k0 kadd kmul (comps_of K cs) (fun T => score K k0 kadd T (removelast g) (last g UNK)) /\
+    B = wsum K k0 kadd kmul (comps_of K cs) (fun T => bo K k0 T g).
+Proof. exact merged_is_spec. Qed.
+
 (* MergeVocab: the universal vocabulary is the sorted union without duplicates and every model word is mapped
    to the universal index that holds the same hash; the loop never runs out of fuel. *)
 Theorem C13_merge_vocab : forall files, good_files files ->
